@@ -429,6 +429,13 @@ func (u *clientUpdater) updateService(ctx context.Context, service ServiceDefini
 	if err != nil {
 		return fmt.Errorf("failed to wipe on testSeed change (service=%s, testSeed=%s): %w", service.ID, seed, err)
 	}
+	// If the store was wiped its timestamp has been reset. The presentations just received are those after the old timestamp,
+	// which is not the complete list: don't process them, the next update starts over.
+	if newTimestamp, err := u.store.getTimestamp(service.ID); err != nil {
+		return err
+	} else if newTimestamp < currentTimestamp {
+		return nil
+	}
 	for _, presentation := range presentations {
 		if presentation.ID == nil {
 			// can't be stored or referred to, a server should not have accepted it
